@@ -269,10 +269,11 @@ func (s *serverSocket) onAck(header *parser.PacketHeader, decode parser.Decode) 
 }
 
 func (s *serverSocket) Join(room ...Room) {
+	// Hold the mutex while joining: onClose replaces s.join with a no-op and then leaves
+	// all rooms. A join that was copied before the replacement must not run after it.
 	s.joinMu.Lock()
-	join := s.join
-	s.joinMu.Unlock()
-	join(room...)
+	defer s.joinMu.Unlock()
+	s.join(room...)
 }
 
 func (s *serverSocket) Leave(room Room) {
